@@ -95,6 +95,10 @@ def sample_params(rng, method, n):
         params["parts"] = rng.choice([2, n, n + 1, 2 * n + 1])
     if "groupsize" in params and rng.random() < 0.6:
         params["groupsize"] = rng.choice([2, 3, max(2, n - 1)])
+    if params.get("sub_optimize") == "greedy-compressed":
+        # a compressed-contraction finder (C20's domain: connected ordinary networks), not one of the
+        # exact finders this property is about
+        params["sub_optimize"] = "greedy"
     params.update(_hyper._HYPER_CONSTANTS[method])
     return params
 
@@ -251,7 +255,9 @@ def run_shard(rep, tier, seed, shard, nshards):
             run_one(rep, case, net)
             rep.mon("method:" + method)
         elif r < 0.75:
-            methods = rng.sample(METHODS, rng.randint(1, 3))
+            # 'kahypar-agglom' samples sub_optimize='greedy-compressed' (a compressed finder) from its space,
+            # so inside the hyper-optimizer it is left to C20; it is still called directly above
+            methods = rng.sample([m for m in METHODS if m != "kahypar-agglom"], rng.randint(1, 3))
             optlib = rng.choice(OPTLIBS if tier == "thorough" or k % 4 == 0 else ["random", "random", "cmaes"])
             if optlib in ("nevergrad", "skopt", "baytune"):
                 # these libraries cannot be given an empty search space; the optimizer library is not
